@@ -182,6 +182,27 @@ func (array *Array) ReverseBy(step int) *Array {
 	return ra
 }
 
+// LimitBy returns the array limited to count groups after skipping offset groups of the specified step.
+func (array *Array) LimitBy(step int, offset int, count int) *Array {
+	if step < 1 {
+		step = 1
+	}
+	la := NewArray()
+	if offset < 0 {
+		return la
+	}
+	l := array.Size()
+	n := 0
+	for begin := 0; begin < l; begin += step {
+		if n >= offset && (count < 0 || n-offset < count) {
+			end := min(begin+step, l)
+			la.msgs = append(la.msgs, array.msgs[begin:end]...)
+		}
+		n++
+	}
+	return la
+}
+
 // Reverse returns the reversed array.
 func (array *Array) Reverse() *Array {
 	return array.ReverseBy(1)
